@@ -75,6 +75,21 @@ def space(m, fam, deg, shape=None, **kw):
     return ufl.FunctionSpace(m, bu.element(fam, cell, deg, shape=shape, **kw) if shape else bu.element(fam, cell, deg, **kw))
 
 
+def tp_mesh(cell):
+    """Tensor-product coordinate element (needed by sum factorisation)."""
+    ufl, basix, bu = _U()
+    ct = getattr(basix.CellType, cell)
+    e = bu.wrap_element(basix.create_tp_element(basix.ElementFamily.P, ct, 1, basix.LagrangeVariant.gll_warped))
+    return ufl.Mesh(bu.blocked_element(e, shape=(GDIM[cell],)))
+
+
+def tp_space(m, deg):
+    ufl, basix, bu = _U()
+    ct = getattr(basix.CellType, m.ufl_cell().cellname)
+    return ufl.FunctionSpace(m, bu.wrap_element(
+        basix.create_tp_element(basix.ElementFamily.P, ct, deg, basix.LagrangeVariant.gll_warped)))
+
+
 def tt(V):
     ufl, _, _ = _U()
     return ufl.TrialFunction(V), ufl.TestFunction(V)
@@ -169,8 +184,8 @@ def q1_quadrilateral():
 @entry("quick")
 def q2_quadrilateral_sumfact():
     ufl, _, _ = _U()
-    m = mesh("quadrilateral")
-    V = space(m, "Q", 2)
+    m = tp_mesh("quadrilateral")
+    V = tp_space(m, 2)
     u, v = tt(V)
     f = ufl.Coefficient(V)
     return [f * u * v * ufl.dx, f * v * ufl.dx], {"sum_factorization": True}
@@ -187,8 +202,8 @@ def q1_hexahedron():
 @entry("quick")
 def q1_hexahedron_sumfact():
     ufl, _, _ = _U()
-    m = mesh("hexahedron")
-    V = space(m, "Q", 1)
+    m = tp_mesh("hexahedron")
+    V = tp_space(m, 1)
     v = ufl.TestFunction(V)
     f = ufl.Coefficient(V)
     return [f * v * ufl.dx], {"sum_factorization": True}
@@ -197,8 +212,8 @@ def q1_hexahedron_sumfact():
 @entry("thorough")
 def q2_hexahedron_sumfact():
     ufl, _, _ = _U()
-    m = mesh("hexahedron")
-    V = space(m, "Q", 2)
+    m = tp_mesh("hexahedron")
+    V = tp_space(m, 2)
     u, v = tt(V)
     return [ufl.inner(ufl.grad(u), ufl.grad(v)) * ufl.dx], {"sum_factorization": True}
 
@@ -355,8 +370,8 @@ def coefficient_dropout():
     f, g, h = ufl.Coefficient(V2), ufl.Coefficient(V1), ufl.Coefficient(V1)
     z = ufl.Coefficient(space(m, "Lagrange", 1, shape=(2,)))
     v = ufl.TestFunction(V1)
-    F = (f * f * g + h * g) * ufl.dx(1) + (f * g) * ufl.dx(2) + ufl.inner(z, z) * 0 * ufl.dx(2)
-    J = ufl.derivative(F, g, v)           # linear in g -> g disappears; h only in dx(1)
+    F = (f * f * g + h * g) * ufl.dx(1) + (f * g) * ufl.dx(2) + ufl.inner(z, z) * ufl.dx(2)
+    J = ufl.derivative(F, g, v)           # linear in g -> g and z disappear; h only in dx(1)
     M = f * g * ufl.dx(1) + h * ufl.dx(2) + g * ufl.dS
     return [J, M], {}
 
@@ -370,9 +385,9 @@ def tensor_constants():
     k = ufl.Constant(m)
     b = ufl.Constant(m, shape=(2,))
     K = ufl.Constant(m, shape=(2, 2))
-    unused = ufl.Constant(m, shape=(3,))
+    t3 = ufl.Constant(m, shape=(3,))
     a = (ufl.inner(K * ufl.grad(u), ufl.grad(v)) + ufl.inner(b, ufl.grad(u)) * v + k * u * v) * ufl.dx \
-        + 0 * unused[2] * u * v * ufl.dx + K[1, 0] * u * v * ufl.ds
+        + t3[2] * u * v * ufl.dx(7) + K[1, 0] * u * v * ufl.ds
     return [a], {}
 
 
